@@ -609,3 +609,198 @@ pub fn generate(ctx: &mut Ctx) {
         ctx.case("grid", &inp);
     }
 }
+
+// ---------------------------------------------------------------------------------------------
+// tables by execution (`hsverif dump c19`): the second source of the C19 tables.  The translators
+// gen/kinds.py, gen/value_shape.py and gen/accessors.py read them from the SOURCE TEXT of val/*.rs; when the
+// text no longer has the shape they parse (a rewrite), they take the tables from here instead: every entry
+// below is computed by calling the real code on the complete finite domain it ranges over (all 256 codes, one
+// value of each of the 18 variants, every typed conversion and getter).
+// ---------------------------------------------------------------------------------------------
+
+fn variant_samples() -> Vec<Value> {
+    let mut found: Vec<Option<Value>> = vec![None; 18];
+    let mut rng = Rng::new(19);
+    let cfg = Cfg::wf(2);
+    let mut n = 0;
+    while found.iter().any(|f| f.is_none()) && n < 200000 {
+        let v = gen::value(&mut rng, &cfg);
+        let i = variant_index(&v);
+        if found[i].is_none() {
+            found[i] = Some(v);
+        }
+        n += 1;
+    }
+    found.into_iter().map(|f| f.expect("generator reaches every variant")).collect()
+}
+
+fn jstr(s: &str) -> String {
+    serde_json::to_string(s).unwrap()
+}
+fn jrow(cols: &[&str]) -> String {
+    format!("[{}]", cols.iter().map(|c| jstr(c)).collect::<Vec<_>>().join(","))
+}
+
+/// name of the set of variants in `hits` (one variant: its name; otherwise a name no table theorem accepts)
+fn set_name(hits: &[usize]) -> String {
+    if hits.len() == 1 {
+        VARIANT_NAMES[hits[0]].to_string()
+    } else {
+        format!("#{}", hits.iter().map(|i| VARIANT_NAMES[*i]).collect::<Vec<_>>().join("+"))
+    }
+}
+
+pub fn dump_tables() {
+    let samples = variant_samples();
+    let kname = |k: HaystackKind| format!("{k:?}");
+    let mut o: Vec<String> = Vec::new();
+    // kinds
+    o.push(format!("\"kinds\":[{}]", ALL_KINDS.iter().map(|k| format!("[{},{}]", jstr(&kname(*k)), *k as u8)).collect::<Vec<_>>().join(",")));
+    // fromU8: every code that is accepted, named by the kind whose discriminant it is
+    let mut rows = Vec::new();
+    for code in 0u16..=255 {
+        if let Ok(b) = HaystackKind::try_from(code as u8) {
+            let a = ALL_KINDS.iter().find(|k| **k as u8 == code as u8).map(|k| kname(*k)).unwrap_or(format!("#{code}"));
+            rows.push(jrow(&[&a, &kname(b)]));
+        }
+    }
+    o.push(format!("\"fromU8\":[{}]", rows.join(",")));
+    // ofValue
+    o.push(format!(
+        "\"ofValue\":[{}]",
+        samples.iter().map(|v| jrow(&[VARIANT_NAMES[variant_index(v)], &kname(HaystackKind::from(v))])).collect::<Vec<_>>().join(",")
+    ));
+    // toStr / display
+    o.push(format!("\"toStr\":[{}]", ALL_KINDS.iter().map(|k| jrow(&[&kname(*k), <&'static str>::from(*k)])).collect::<Vec<_>>().join(",")));
+    o.push(format!("\"display\":[{}]", ALL_KINDS.iter().map(|k| jrow(&[&kname(*k), &format!("{k}")])).collect::<Vec<_>>().join(",")));
+    // fromStr: every candidate text that is accepted
+    let mut cands: Vec<String> = Vec::new();
+    for k in ALL_KINDS.iter() {
+        for s in [kname(*k), <&'static str>::from(*k).to_string(), format!("{k}")] {
+            for t in [s.clone(), s.to_lowercase(), s.to_uppercase(), format!("{s} "), format!(" {s}"), {
+                let mut c = s.chars();
+                c.next().map(|f| f.to_uppercase().collect::<String>() + c.as_str()).unwrap_or_default()
+            }] {
+                if !cands.contains(&t) {
+                    cands.push(t);
+                }
+            }
+        }
+    }
+    cands.push(String::new());
+    let mut rows = Vec::new();
+    for c in &cands {
+        if let Ok(k) = HaystackKind::try_from(c.as_str()) {
+            rows.push(jrow(&[c, &kname(k)]));
+        }
+    }
+    o.push(format!("\"fromStr\":[{}]", rows.join(",")));
+    // variants in the order of the derived `Ord` (= declaration order), payload flag as the patterns of this harness have it
+    let mut ord: Vec<&Value> = samples.iter().collect();
+    ord.sort_by(|a, b| a.cmp(b));
+    let payload = |i: usize| !matches!(i, 0 | 1 | 2 | 4);
+    o.push(format!(
+        "\"variants\":[{}]",
+        ord.iter().map(|v| format!("[{},{}]", jstr(VARIANT_NAMES[variant_index(v)]), payload(variant_index(v)))).collect::<Vec<_>>().join(",")
+    ));
+    // preds
+    let mut rows = Vec::new();
+    for (n, f, _) in PREDS.iter() {
+        let hits: Vec<usize> = samples.iter().filter(|v| f(v)).map(variant_index).collect();
+        rows.push(jrow(&[n, &set_name(&hits)]));
+    }
+    o.push(format!("\"preds\":[{}]", rows.join(",")));
+    let bt = Value::make_bool(true);
+    let bf = Value::make_bool(false);
+    let other_ok = bt.is_true() && !bt.is_false() && bf.is_false() && !bf.is_true() && samples.iter().all(|v| v.is_bool() || (!v.is_true() && v.is_false()));
+    o.push(format!("\"otherPreds\":[{}]", if other_ok { "\"is_true\",\"is_false\"" } else { "\"#is_true\",\"#is_false\"" }));
+    // tryFroms
+    let mut by_target: Vec<(&'static str, Vec<usize>, bool)> = Vec::new();
+    for v in &samples {
+        for (t, _idx, ok, same) in conversions(v) {
+            let e = match by_target.iter().position(|x| x.0 == t) {
+                Some(p) => &mut by_target[p],
+                None => {
+                    by_target.push((t, Vec::new(), true));
+                    by_target.last_mut().unwrap()
+                }
+            };
+            if ok {
+                e.1.push(variant_index(v));
+                e.2 &= same;
+            }
+        }
+    }
+    let mut rows = Vec::new();
+    for (t, hits, same) in &by_target {
+        let var = set_name(hits);
+        let class = if !*same {
+            "#other"
+        } else if matches!(*t, "bool" | "f64" | "String") {
+            "value"
+        } else if hits.len() == 1 && !payload(hits[0]) {
+            "unit"
+        } else {
+            "whole"
+        };
+        rows.push(jrow(&[t, &var, class]));
+    }
+    o.push(format!("\"tryFroms\":[{}]", rows.join(",")));
+    // getters: for every typed getter the variants under which it answers
+    type G = (&'static str, &'static str, fn(&Dict, &str) -> bool);
+    let getters: [G; 17] = [
+        ("has_marker", "has", |d, k| d.has_marker(k)),
+        ("has_na", "has", |d, k| d.has_na(k)),
+        ("has_remove", "has", |d, k| d.has_remove(k)),
+        ("get_bool", "get", |d, k| d.get_bool(k).is_some()),
+        ("get_num", "get", |d, k| d.get_num(k).is_some()),
+        ("get_str", "get", |d, k| d.get_str(k).is_some()),
+        ("get_xstr", "get", |d, k| d.get_xstr(k).is_some()),
+        ("get_ref", "get", |d, k| d.get_ref(k).is_some()),
+        ("get_uri", "get", |d, k| d.get_uri(k).is_some()),
+        ("get_symbol", "get", |d, k| d.get_symbol(k).is_some()),
+        ("get_date", "get", |d, k| d.get_date(k).is_some()),
+        ("get_time", "get", |d, k| d.get_time(k).is_some()),
+        ("get_date_time", "get", |d, k| d.get_date_time(k).is_some()),
+        ("get_coord", "get", |d, k| d.get_coord(k).is_some()),
+        ("get_dict", "get", |d, k| d.get_dict(k).is_some()),
+        ("get_list", "get", |d, k| d.get_list(k).is_some()),
+        ("get_grid", "get", |d, k| d.get_grid(k).is_some()),
+    ];
+    let one = |key: &str, v: &Value| {
+        let mut d = Dict::new();
+        d.insert(key.to_string(), v.clone());
+        d
+    };
+    let mut rows = Vec::new();
+    for (n, how, f) in getters.iter() {
+        let hits: Vec<usize> = samples.iter().filter(|v| f(&one("k", v), "k") && !f(&one("other", v), "k")).map(variant_index).collect();
+        rows.push(jrow(&[n, how, &set_name(&hits)]));
+    }
+    o.push(format!("\"getters\":[{}]", rows.join(",")));
+    // keyed getters: which key, and the getter they agree with on every variant stored under that key
+    let keys = ["id", "mod", "ts", "dis", "k"];
+    let mut rows = Vec::new();
+    let keyed: [(&str, fn(&Dict) -> bool); 3] = [
+        ("id", |d| d.id().is_some()),
+        ("safe_id", |d| {
+            let r = d.safe_id();
+            let def = Ref::default();
+            r.value != def.value || r.dis != def.dis
+        }),
+        ("ts", |d| d.ts().is_some()),
+    ];
+    for (n, f) in keyed.iter() {
+        for key in keys {
+            let hits: Vec<usize> = samples.iter().filter(|v| f(&one(key, v))).map(variant_index).collect();
+            if hits.is_empty() {
+                continue;
+            }
+            // the typed getter with the same answers under this key
+            let g = getters.iter().find(|(_, _, g)| samples.iter().all(|v| g(&one(key, v), key) == f(&one(key, v))));
+            rows.push(jrow(&[n, g.map(|g| g.0).unwrap_or("#none"), key]));
+        }
+    }
+    o.push(format!("\"keyedGetters\":[{}]", rows.join(",")));
+    println!("{{{}}}", o.join(",\n"));
+}
